@@ -45,7 +45,7 @@ CHECKS = {
  "C13": ("deploymc", "stateless schedule/crash exploration of the real deploy.Deploy by iterative deviation bounding (default schedule, then all enumerated one-deviation schedules: sleep, crash-restart, adjacent reorder, a transaction held back in the pool, absent minority; thorough: pairs) on an in-process neo-go chain with Notary services under testing/synctest virtual time; exhaustive input grids for the three pure helpers",
          "quick: n=1..4 default (determinism self-check), every sleep(member, round, 1) and every crash at every second round with immediate restart for n<=3, adjacent transaction swaps for n=2, every absent minority for n=3,4 (~1450 complete runs of Deploy); thorough: n=1..7, sleeps of 1/3/150 rounds and crashes with two restart delays for n<=4, call-granular crash points, reorders for n<=3, minorities for n=3..7, two-deviation sleep pairs for n=2, all 2^32 heights of the transaction-window helper; oracle on every final chain: all runs return nil, roles designated to exactly the committee, NNS id 1, every system name resolves to exactly one contract with the supplied executable, 8+n contracts, no designation with an invalid witness ever submitted, a second run submits no deploy/update/register/addRecord/setRecord/designateAsRole and changes nothing", "3"),
  "C16": ("chainmc", "exhaustive grids: (contract x version around both bounds x synthetic legacy storage) driven through an old-version stub that calls management.update so the tree's _deploy(data,true) runs on that storage; and (contract x signer set x committee size) updating the real contracts to a scratch build of the same tree with the patch version +1",
-         "recorded dumps (testnet v0.15.4, mainnet v0.16, NNS testnet v0.17): the recorded old executables answer up to 300 reads per contract before, the tree's contract after the committee's update, lenient only where a migration is documented; 1130 window/migration cases: 11 contracts x {prev-1, prev, prev+1, 15999, 16000, 16999, 17000, 17999, 18000, 18999, 19000, 19999, cur-1, cur, cur+1} x layouts (un-prefixed/prefixed/mixed balance accounts incl. a lock account, un-prefixed/prefixed/mixed container and owner-index keys with eACL and alias, old-format netmap snapshots and candidates with ring sizes 3/10/12 and a ring of 6 with two slots not written yet, update data with a decoy integer in front of the appended version, stored subscriber hashes, owned TLDs with names and records, audit/reputation/neofsid/neofs/alphabet data) x notary flag {absent,false,true} x ballots {absent,empty,stale,fresh}: outside the window => FAULT by the version check with an empty diff; inside => HALT and every read-API answer equals what the generator stored (fresh ballot + notary=true must fault); ~300 gate cases for committees of 1,2,3,4,6,7 (incl. the main-chain contracts right after a role rotation): only the committee majority updates, version()+1, read API unchanged", "4.16"),
+         "recorded dumps (testnet v0.15.4, mainnet v0.16, NNS testnet v0.17): the recorded old executables answer up to 300 reads per contract before, the tree's contract after the committee's update, lenient only where a migration is documented; about 1900 window/migration cases: 11 contracts x {prev-1, prev, prev+1, 15999, 16000, 16999, 17000, 17999, 18000, 18999, 19000, 19999, cur-1, cur, cur+1} x layouts (un-prefixed/prefixed/mixed balance accounts incl. a lock account, un-prefixed/prefixed/mixed container and owner-index keys with eACL and alias, old-format netmap snapshots and candidates with ring sizes 3/10/12 and a ring of 6 with two slots not written yet, update data with a decoy integer in front of the appended version, stored subscriber hashes, owned TLDs with names and records, audit/reputation/neofsid/neofs/alphabet data) x notary flag {absent,false,true} x ballots {absent,empty,stale,fresh}: outside the window => FAULT by the version check with an empty diff; inside => HALT and every read-API answer equals what the generator stored (fresh ballot + notary=true must fault); ~300 gate cases for committees of 1,2,3,4,6,7 (incl. the main-chain contracts right after a role rotation): only the committee majority updates, version()+1, read API unchanged", "4.16"),
 }
 
 NOT_YET = "check not built yet in this revision (work in progress; see DESIGN.md section 10)"
